@@ -179,6 +179,11 @@ def _multi_cause(draw, tier):
         evs.append({**cause, "at": t0 + dt})
     if draw(st.booleans()):
         evs.append({"do": "chunk", "frames": ["ping"], "at": t0 + draw(st.sampled_from([0, 1, 3, 6]))})
+    if draw(st.integers(0, 3)) == 0:
+        # the caller of a graceful disconnect() gives up while it is pending; the session ends later by another cause
+        td = t0 - draw(st.sampled_from([1, 4, 30]))
+        evs = [{"do": "disconnect", "at": td}, {"do": "cancel_disc", "at": td + draw(st.sampled_from([0, 1, 2]))}] + evs
+        c["latency"] = 64
     c["events"] = evs
     return c
 
@@ -205,6 +210,11 @@ def enumerated(tier):
             for c2 in PAIR_CAUSES:
                 for dt in (0, 1, 4):
                     yield {**base, "events": [{**c1, "at": 64}, {**c2, "at": 64 + dt}, {"do": "chunk", "frames": ["ping"], "at": 70}]}
+        # a graceful disconnect() whose caller gives up (cancelled) while the device has not answered; then each cause
+        for c2 in PAIR_CAUSES + [{"do": "silence"}, {"do": "cancel"}]:
+            for dt in (0, 1, 8):
+                for gap in (2, 40, 300):
+                    yield {**base, "latency": 64, "events": [{"do": "disconnect", "at": 64}, {"do": "cancel_disc", "at": 64 + dt}, {**c2, "at": 64 + dt + gap}]}
         # every cause alone, at steady state and during the keepalive wait, plus silence -> ping timeout
         for c1 in PAIR_CAUSES + [{"do": "silence"}, {"do": "cancel"}]:
             for at in (40, 64, 2100, 2200):
